@@ -28,6 +28,10 @@
             (DefaultingSpec.known_font_metrics): the oracle input itself is off
          13 pr.TextRatioCache: a Get after a sequence of Sets returned something else than the
             model's two maps (rc_get / rc_set)
+         14 vertical-align: <percentage> (a recorded result, the strut is outside the model): the
+            recorded computed value is not that percentage of the element's own line height
+            (Defaulting.valign_percent of the model's computed font-size and line-height;
+            elements whose line-height is `normal` are skipped: the font decides)
           9 the implementation panicked and so does the model (C04_get_total says the
             model does not: the case is outside its hypotheses, e.g. ill-typed) *)
 From Verif Require Export Css.Defaulting Css.DefaultingSpec Css.DefaultingTyping.
@@ -144,6 +148,31 @@ Definition metrics_known_node (nd : node) : bool :=
   end.
 Definition metrics_known (t : tree) : bool := forallb metrics_known_node t.
 
+(* audit of the recorded results of vertical-align percentages *)
+Definition valign_pct_decl (nd : node) : option Q :=
+  match lookup_decl nd PVerticalAlign with
+  | Some (CExplicit (VDim s q u)) | Some (CPending (PVal (VDim s q u))) =>
+      if String.eqb s "" && (u =? U_Perc) then Some q else None
+  | _ => None
+  end.
+
+Definition valign_expected (t : tree) (n : N) (q : Q) : option Q :=
+  match computed f32 true t n PFontSize, computed f32 true t n PLineHeight with
+  | Ok (VDim _ fs _), Ok lh => valign_percent f32 q fs lh
+  | _, _ => None
+  end.
+
+Definition valign_audit_node (t : tree) (n : N) (nd : node) : bool :=
+  match n_kind nd, valign_pct_decl nd, lookup_oracle nd PVerticalAlign with
+  | KElem, Some q, Some (VDim _ r _) =>
+      match valign_expected t n q with Some x => Qeq_bool x r | None => true end
+  | _, _, _ => true
+  end.
+
+Definition indexed (t : tree) : list (N * node) := combine (map N.of_nat (seq 0 (List.length t))) t.
+Definition valign_audit (t : tree) : bool :=
+  forallb (fun ind => valign_audit_node t (fst ind) (snd ind)) (indexed t).
+
 Definition check (c : case) : N :=
   match c with
   | CDoc t ops chg =>
@@ -153,6 +182,7 @@ Definition check (c : case) : N :=
         | [] =>
           let k := run_hist t empty_styles ops in
           if negb (k =? 0) then k
+          else if negb (valign_audit t) then 14
           else if negb (metrics_known t) then 12
           else if negb (wt_tree t) then 10 else 0
         end
@@ -172,6 +202,8 @@ Inductive mout :=
 | MSizes (l : list N)
 | MChanged (l : list dchange)                 (* code 11 *)
 | MMetrics (n : N) (m : option metrics)       (* code 12: first node with unknown metrics *)
+| MVAlign (n : N) (percent : Q) (font_size line_height : res value) (model : option Q) (recorded : option value)
+                                              (* code 14: first node whose vertical-align % is off *)
 | MRatio (i : N) (model : option Q)           (* code 13: index of the Get, what the model's cache holds *)
 | MQ (q : Q) | MZ (z : Z) | MNone.
 
@@ -216,9 +248,16 @@ Definition model_out (c : case) : mout :=
       | [] =>
         match first_bad t empty_styles ops 0 with
         | MAgree =>
+            match find (fun ind => negb (valign_audit_node t (fst ind) (snd ind))) (indexed t) with
+            | Some (i, nd) =>
+                let q := match valign_pct_decl nd with Some q => q | None => 0%Q end in
+                MVAlign i q (computed f32 true t i PFontSize) (computed f32 true t i PLineHeight)
+                        (valign_expected t i q) (lookup_oracle nd PVerticalAlign)
+            | None =>
             match find (fun ind => negb (metrics_known_node (snd ind))) (combine (map N.of_nat (seq 0 (List.length t))) t) with
             | Some (i, nd) => MMetrics i (n_metrics nd)
             | None => MAgree
+            end
             end
         | x => x
         end
